@@ -4,6 +4,7 @@ package c03
 import (
 	"errors"
 	"fmt"
+	"math"
 	"testing"
 
 	sentinel "github.com/alibaba/sentinel-golang/api"
@@ -19,13 +20,33 @@ import (
 func TestMain(m *testing.M) { hx.Main(m, "C03") }
 
 // listener records every notification.
-type listener struct{ log []model.Transition }
+type listener struct {
+	log   []model.Transition
+	trips map[string][]float64
+}
 
 func (l *listener) OnTransformToClosed(prev cb.State, rule cb.Rule) {
 	l.log = append(l.log, model.Transition{From: int(prev), To: model.Closed, Rule: rule.Id})
 }
-func (l *listener) OnTransformToOpen(prev cb.State, rule cb.Rule, _ interface{}) {
+func (l *listener) OnTransformToOpen(prev cb.State, rule cb.Rule, snapshot interface{}) {
 	l.log = append(l.log, model.Transition{From: int(prev), To: model.Open, Rule: rule.Id})
+	if prev == cb.Closed { // the triggered value handed to the listeners: the window's error count, or its ratio
+		v := math.NaN()
+		switch x := snapshot.(type) {
+		case float64:
+			v = x
+		case uint64:
+			v = float64(x)
+		case int64:
+			v = float64(x)
+		case int:
+			v = float64(x)
+		}
+		if l.trips == nil {
+			l.trips = map[string][]float64{}
+		}
+		l.trips[rule.Id] = append(l.trips[rule.Id], v)
+	}
 }
 func (l *listener) OnTransformToHalfOpen(prev cb.State, rule cb.Rule) {
 	l.log = append(l.log, model.Transition{From: int(prev), To: model.HalfOpen, Rule: rule.Id})
@@ -312,6 +333,17 @@ func TestBreakerMachine(t *testing.T) {
 			// the complete listener log equals the model's, after every step
 			if len(lis.log) != len(mlog) {
 				t.Fatalf("after step %d: listeners saw %v, reference machine produced %v", i, lis.log, mlog)
+			}
+			for _, m := range ms { // the triggered value reported with every Closed->Open transition
+				got := lis.trips[m.R.ID]
+				if len(got) != len(m.TripValues) {
+					t.Fatalf("after step %d: rule %s opened %d time(s) from closed per the listeners, %d per the reference", i, m.R.ID, len(got), len(m.TripValues))
+				}
+				for j := range got {
+					if math.IsNaN(got[j]) || math.Abs(got[j]-m.TripValues[j]) > 1e-9 {
+						t.Fatalf("after step %d: the listeners of rule %s were told the triggered value %v when it opened (opening #%d), the window held %v", i, m.R.ID, got[j], j, m.TripValues[j])
+					}
+				}
 			}
 			for j := range mlog {
 				if lis.log[j] != mlog[j] {
